@@ -71,6 +71,7 @@ type plObs struct {
 	Hashes     []string `json:"hashes"`
 	HashStable bool     `json:"hashStable"`
 	Collapsed  bool     `json:"collapsed"` // equal entries of a group collapse into one target
+	TwinKept   bool     `json:"twinKept"`  // two entries that end with the same visible labels and differ in their address are two targets, as for Prometheus
 	Err        string   `json:"err,omitempty"`
 }
 
@@ -271,7 +272,7 @@ func discoverCount(yaml string, groups []*targetgroup.Group) (map[uint64]*discov
 }
 
 func runPipelineCase(dir string, c plCfg, l plL) plObs {
-	o := plObs{Plain: []plOut{}, Sharded: []plOut{}, Hashes: []string{}, HashStable: true, Collapsed: true}
+	o := plObs{Plain: []plOut{}, Sharded: []plOut{}, Hashes: []string{}, HashStable: true, Collapsed: true, TwinKept: true}
 	yaml := plYAML(c, l)
 	pc, err := config.Load(yaml, false, log.NewNopLogger())
 	if err != nil {
@@ -407,6 +408,29 @@ func runPipelineCase(dir string, c plCfg, l plL) plObs {
 		}
 		if n2 != len(by2) {
 			o.Collapsed = false // the job's active list holds the same target more than once
+		}
+	}
+	// ---- twins: the same visible labels (instance set by the discovery), two addresses: two targets with two URLs ----
+	if len(o.Plain) == 1 {
+		t1 := plGroup(l, 0)
+		var a model.LabelSet
+		for _, t := range t1.Targets {
+			if string(t[model.AddressLabel]) == l.Addr {
+				a = t
+			}
+		}
+		if a != nil && l.Addr != "" {
+			a["instance"] = "same"
+			b := a.Clone()
+			b[model.AddressLabel] = "twin-host:4321"
+			t1.Targets = append(t1.Targets, b)
+			if by3, _, err := discoverCount(yaml, []*targetgroup.Group{t1}); err == nil {
+				urls := map[string]bool{}
+				for _, t := range by3 {
+					urls[t.ShardTarget.Address()] = true
+				}
+				o.TwinKept = len(by3) == 2 && len(urls) == 2
+			}
 		}
 	}
 	return o
